@@ -15,6 +15,7 @@ import SkNet.Lemmas.ClusteringSecondary
 import SkNet.Lemmas.ClusteringKCenters
 import SkNet.Lemmas.ClusteringAggregate
 import SkNet.Lemmas.ClusteringCanon
+import SkNet.Lemmas.ClusteringPre
 
 namespace SkNet.C05
 open SkNet SkNet.Clustering
@@ -157,9 +158,11 @@ theorem f9_witness :
 
 /-! ## 5. the whole of `Louvain.fit` / `Leiden.fit` around the kernels -/
 
-/-- ★ Louvain: for every kernel that returns one label per node, every sorting `argsort`, every shuffling
-    permutation and every option, the fit does not raise and — when the loop stops — `labels_` (rows then
-    columns for a bipartite graph) is a valid clustering of the `N` nodes, sorted by size iff `sort_clusters` -/
+/-- ★ Louvain, partial correctness (the left disjunct `.ok none` = "the `fuel` rounds allowed were used up"; it is
+    excluded by `louvain_fit_total` under the stop clause of the kernel contract): for every kernel that returns one
+    label per node, every sorting `argsort`, every shuffling permutation and every option, the fit does not raise
+    and — when the loop stops — `labels_` (rows then columns for a bipartite graph) is a valid clustering of the `N`
+    nodes, sorted by size when `sort_clusters` -/
 theorem louvain_fit_valid {argsort : List Int → List Nat} (hs : ∀ key, IsArgsort key (argsort key))
     {kernel : Nat → Nat → List Int × Bool} (hk : KernelLen kernel) (nAgg : Int) (fuel : Nat) {N : Nat}
     (hN : 0 < N) (sortClusters shuffle bipartite : Bool) (nRow : Nat) {index : List Nat}
@@ -169,7 +172,7 @@ theorem louvain_fit_valid {argsort : List Int → List Nat} (hs : ∀ key, IsArg
       ValidClustering N (allLabels f) sortClusters ∧ f = splitVars bipartite nRow (allLabels f) :=
   louvainFit_spec hs hk nAgg fuel hN sortClusters shuffle bipartite nRow hidx
 
-/-- ★ Leiden: same statement; the refinement kernel must keep every refined cluster inside one cluster of the
+/-- ★ Leiden, partial correctness (see `leiden_fit_total`): same statement; the refinement kernel must keep every refined cluster inside one cluster of the
     partition it refines (`LeidenContract.within`, the statement of C06 about `optimize_refine_core`) -/
 theorem leiden_fit_valid {argsort : List Int → List Nat} (hs : ∀ key, IsArgsort key (argsort key))
     {kernel : Nat → List Nat → List Int × Bool} {refine : Nat → List Nat → List Int}
@@ -190,6 +193,55 @@ theorem louvain_fuel_suffices {kernel : Nat → Nat → List Int × Bool} {nAgg 
   rw [identity_eq]
   exact louvainLoop_fuel_nAgg hk nAgg.toNat 0 N (List.range N) hN
     ⟨fun x hx => List.mem_range.mp hx, fun c hc => List.mem_range.mpr hc⟩ (by simpa using hpos) (by omega)
+
+/-- ★★ total form (no fuel disjunct): under the full kernel contract — one label per node (`KernelLen`) and "no
+    merge ⇒ `increase ≤ tol_aggregation`" (`NoMergeStops`, true of `optimize_core` for `tol_aggregation ≥ 0` by C17's
+    `louvain_outer_terminates`; false for a negative tolerance, where the real loop does not terminate) — and with as
+    many rounds as nodes, `Louvain.fit` returns, for every `n_aggregations` (the default `-1` included) -/
+theorem louvain_fit_total {argsort : List Int → List Nat} (hs : ∀ key, IsArgsort key (argsort key))
+    {kernel : Nat → Nat → List Int × Bool} (hk : KernelLen kernel) (hst : NoMergeStops kernel) (nAgg : Int)
+    {fuel N : Nat} (hN : 0 < N) (hf : N ≤ fuel) (sortClusters shuffle bipartite : Bool) (nRow : Nat)
+    {index : List Nat} (hidx : shuffle = true → index.Perm (List.range N)) :
+    ∃ f count, louvainFit argsort kernel nAgg fuel N index sortClusters shuffle bipartite nRow = .ok (some (f, count)) ∧
+      ValidClustering N (allLabels f) sortClusters ∧ f = splitVars bipartite nRow (allLabels f) :=
+  louvainFit_total hs hk hst nAgg hN hf sortClusters shuffle bipartite nRow hidx
+
+/-- ★★ total form for Leiden, under `LeidenContract` and the progress clause `LeidenProgress` (a round that does not
+    raise the stop flag leaves strictly fewer refined clusters than nodes).  `LeidenProgress` is *not* proved of the
+    kernels by C06/C17 (C17 proves termination of the refinement and of Louvain's outer loop only): it is an
+    assumption of this theorem, evaluated on every recorded round by the contract line `contract_progress`. -/
+theorem leiden_fit_total {argsort : List Int → List Nat} (hs : ∀ key, IsArgsort key (argsort key))
+    {kernel : Nat → List Nat → List Int × Bool} {refine : Nat → List Nat → List Int}
+    (hk : LeidenContract kernel refine) (hp : LeidenProgress kernel refine) (nAgg : Int) {fuel N : Nat}
+    (hN : 0 < N) (hf : N ≤ fuel) (sortClusters shuffle bipartite : Bool) (nRow : Nat) {index : List Nat}
+    (hidx : shuffle = true → index.Perm (List.range N)) :
+    ∃ f count, leidenFit argsort kernel refine nAgg fuel N index sortClusters shuffle bipartite nRow
+        = .ok (some (f, count)) ∧
+      ValidClustering N (allLabels f) sortClusters ∧ f = splitVars bipartite nRow (allLabels f) :=
+  leidenFit_total hs hk hp nAgg hN hf sortClusters shuffle bipartite nRow hidx
+
+-- the contracts are satisfiable (the example kernels of this file meet them) and not vacuous: an idle kernel that
+-- never merges and never raises the flag violates `NoMergeStops`, and the model then runs out of any fuel
+example : NoMergeStops exKernel := by
+  intro count n h
+  simp only [exKernel, decide_eq_true_eq]
+  by_contra hn
+  have hlen := unique_length_le ((List.range n).map fun i => (((i + 1) / 2 : Nat) : Int) * 3)
+  -- with n ≥ 4 the labels of nodes 1 and 2 coincide: fewer than n distinct values
+  have h3 : 4 ≤ n := by omega
+  have hnd : (((List.range n).map fun i => (((i + 1) / 2 : Nat) : Int) * 3)).Nodup := by
+    have hp : (unique ((List.range n).map fun i => (((i + 1) / 2 : Nat) : Int) * 3)).Perm
+        ((List.range n).map fun i => (((i + 1) / 2 : Nat) : Int) * 3) := by
+      apply List.Perm.symm
+      apply (List.subperm_of_subset (unique_nodup _) (fun _ hx => mem_unique.mp hx)).perm_of_length_le
+      simp only [exKernel] at h
+      rw [h]; simp
+    exact hp.nodup_iff.mp (unique_nodup _)
+  rw [List.nodup_map_iff_inj_on List.nodup_range] at hnd
+  have := hnd 1 (List.mem_range.mpr (by omega)) 2 (List.mem_range.mpr (by omega)) (by decide)
+  omega
+example : louvainFit argsortStable (fun _ n => ((List.range n).map Int.ofNat, false)) (-1) 50 3 [] true false false 3
+    = .ok none := by decide
 
 /-- ★ `_post_processing` alone, with the relation between the final labels and the clusters found: the output
     induces the partition of the composed membership, read through the shuffling permutation -/
@@ -554,9 +606,11 @@ theorem kcenters_init_centers {choose : Nat → List Nat → Nat} (hch : ChoiceO
     ∀ c ∈ initCenters choose mask n, mask.getD c false = true :=
   initCenters_spec hch hn
 
-/-- ★ `KCenters.fit`: if the arguments are not refused, the labels are below `n_clusters`, `centers_` are
-    `n_clusters` distinct admissible nodes (`center_position`), and `centers_row_` / `centers_col_` split them by side -/
-theorem kcenters_centers {nClusters nInit : Int} {bipartite : Bool} {nRow nCol : Nat} {pos : CenterPos}
+/-- the end of `KCenters.fit` *given* the assignment: the centre clauses (`n_clusters` distinct admissible centres,
+    split by side) are proved; the label clauses (one label per node, below `n_clusters`) are those assumed of the
+    recorded labels in `hruns` and merely pass through `_split_vars`.  The unconditional statement is
+    `kcenters_fit_valid` below, where the assignment itself is modelled. -/
+theorem kcenters_centers_given_assignment {nClusters nInit : Int} {bipartite : Bool} {nRow nCol : Nat} {pos : CenterPos}
     {runs : List (List Nat × List Nat)} {idxMax : Nat} {k : KFitted}
     (h : kcentersFit nClusters nInit bipartite nRow nCol pos runs idxMax = .ok k)
     (hruns : ∀ mask, maskCenters bipartite nRow nCol pos = .ok mask → ∀ r ∈ runs,
@@ -574,20 +628,69 @@ theorem kcenters_one_assignment (classify : List Nat → List Nat) (maxIter : In
       some (if 1 ≤ maxIter then (some (classify centers), 1) else (none, 0)) :=
   kcentersAssign_eq classify maxIter hne fuel
 
-/-- ★★ the whole of `KCenters.fit` on the model (checks, restarts with their random choices, assignment loop,
-    selection of the best restart, bookkeeping): if it returns, the k-centers clause of C05 holds, `max_iter ≥ 1`
-    and exactly one assignment per restart was computed -/
-theorem kcenters_fit_valid {nClusters nInit maxIter : Int} {bipartite : Bool} {nRow nCol : Nat} {pos : CenterPos}
+/-- `KCenters.fit` with restarts and assignment loop, for an *abstract* assignment `classify`: the label clauses are
+    the hypothesis `hcl` (for distinct centres); proved here: centres, split, `max_iter ≥ 1`, one assignment per
+    restart.  See `kcenters_fit_valid` for the statement without `hcl`. -/
+theorem kcenters_fit_given_assignment {nClusters nInit maxIter : Int} {bipartite : Bool} {nRow nCol : Nat}
+    {pos : CenterPos}
     {chooseOf : Nat → Nat → List Nat → Nat} {classify : Nat → List Nat → List Nat} {idxMax : Nat}
     {k : KFitted} {calls : Nat}
     (h : kcentersFitFull nClusters nInit maxIter bipartite nRow nCol pos chooseOf classify idxMax = .ok (k, calls))
     (hch : ∀ i, ChoiceOK (chooseOf i))
-    (hcl : ∀ i centers, (classify i centers).length = (if bipartite then nRow + nCol else nRow) ∧
+    (hcl : ∀ i centers, centers.length = nClusters.toNat → centers.Nodup →
+      (classify i centers).length = (if bipartite then nRow + nCol else nRow) ∧
       ∀ l ∈ classify i centers, l < nClusters.toNat) :
     KCentersOK bipartite nRow nCol pos nClusters.toNat (allLabelsK k) k.centers ∧
     (bipartite = true → CentersSplitOK nRow pos k.centers k.centersRow k.centersCol) ∧
     1 ≤ maxIter ∧ calls = nInit.toNat :=
   kcentersFitFull_spec h hch hcl
+
+/-- ★ the read-out of `PageRankClassifier` (`labels_unique[np.argmax(scores, axis=1)]` with the classes of the seeds
+    `{center: label}`): one label per row of the score matrix, every label below the number of centres — whatever the
+    scores are -/
+theorem rank_readout_labels {centers : List Nat} {scores : List (List Rat)} {l : List Nat}
+    (h : rankReadout centers scores = .ok l) :
+    l.length = scores.length ∧ ∀ x ∈ l, x < centers.length :=
+  rankReadout_spec h
+
+/-- ★★ the k-centers clause of C05 with *no assumption on the labels*: the assignment is the model's (arg-max
+    read-out of an arbitrary score matrix with one row per node of the adjacency — the only thing assumed of
+    PageRank, monitored by `contract_scores`).  If `fit` returns: one label per node, every label below `n_clusters`,
+    `n_clusters` distinct admissible centres split by side, `max_iter ≥ 1`, one assignment per restart. -/
+theorem kcenters_fit_valid {nClusters nInit maxIter : Int} {bipartite : Bool} {nRow nCol : Nat} {pos : CenterPos}
+    {chooseOf : Nat → Nat → List Nat → Nat} {scores : Nat → List Nat → List (List Rat)} {idxMax : Nat}
+    {k : KFitted} {calls : Nat}
+    (h : kcentersFitScores nClusters nInit maxIter bipartite nRow nCol pos chooseOf scores idxMax = .ok (k, calls))
+    (hch : ∀ i, ChoiceOK (chooseOf i))
+    (hshape : ∀ i centers, (scores i centers).length = (if bipartite then nRow + nCol else nRow)) :
+    KCentersOK bipartite nRow nCol pos nClusters.toNat (allLabelsK k) k.centers ∧
+    (bipartite = true → CentersSplitOK nRow pos k.centers k.centersRow k.centersCol) ∧
+    1 ≤ maxIter ∧ calls = nInit.toNat :=
+  kcentersFitScores_spec h hch hshape
+
+/-- ★★ the same from the shape of the input: the routing of `get_adjacency` (bipartite iff forced or not square) and
+    the refusals (`n_clusters < 2`, `n_init < 1`, `directed=True` on a non-square input, no stored entry, too many
+    clusters for the admissible side, unknown `center_position`) are the model's -/
+theorem kcenters_estimator_valid {nClusters nInit maxIter : Int} {directed forceBipartite : Bool}
+    {nRow nCol nnz : Nat} {pos : CenterPos} {chooseOf : Nat → Nat → List Nat → Nat}
+    {scores : Nat → List Nat → List (List Rat)} {idxMax : Nat} {k : KFitted} {calls : Nat}
+    (h : kcentersEstimator nClusters nInit maxIter directed forceBipartite nRow nCol nnz pos chooseOf scores idxMax
+      = .ok (k, calls))
+    (hch : ∀ i, ChoiceOK (chooseOf i))
+    (hshape : ∀ i centers, (scores i centers).length =
+      (if (forceBipartite || nRow != nCol) = true then nRow + nCol else nRow)) :
+    KCentersOK (forceBipartite || nRow != nCol) nRow nCol pos nClusters.toNat (allLabelsK k) k.centers ∧
+    ((forceBipartite || nRow != nCol) = true → CentersSplitOK nRow pos k.centers k.centersRow k.centersCol) ∧
+    1 ≤ maxIter ∧ calls = nInit.toNat ∧ 0 < nnz ∧ (directed = true → nRow = nCol) :=
+  kcentersEstimator_spec h hch hshape
+
+-- non-vacuity: scores of 3 nodes for 2 centres (a tie on the last row goes to the first maximum), and the refusals
+example : kcentersEstimator 2 1 20 false false 3 3 4 .row (fun _ t c => c.getD (2 * t) 0)
+    (fun _ _ => [[1, 0], [1/4, 3/4], [1/2, 1/2]]) 0 = .ok (⟨[0, 1, 0], none, none, [0, 2], none, none⟩, 1) := by
+  decide +kernel
+example : kcentersEstimator 2 1 20 true false 2 3 4 .row (fun _ t c => c.getD t 0) (fun _ _ => []) 0
+    = .error .valueError := by decide
+example : rankReadout [4, 4] [[1, 0]] = .error .valueError := by decide
 
 example : kcentersFitFull 2 2 20 true 2 3 .col (fun i t cand => cand.getD ((i + t) % cand.length) 0)
     (fun i _ => if i = 0 then [0, 0, 1, 1, 0] else [1, 0, 1, 0, 0]) 1
